@@ -23,7 +23,7 @@ def driver_jobs():
         states.append({"hist": [{"op": "call", "vars": ["heavy"], "ests": ["max"]}], "init_order": order, "tkeys": ["it", "t"],
                        "cols": [{"kind": "in", "name": c, "of": "", "e": ""} for c in O.IN_SCALARS + O.IN_OTHERS]
                        + [{"kind": "var", "name": "heavy", "of": "", "e": ""}]
-                       + [{"kind": "est", "name": c + "_max", "of": c, "e": "max"} for c in ["alpha", "heavy"]],
+                       + [{"kind": "est", "name": c + "_max", "of": c, "e": "max"} for c in O.IN_SCALARS + ["heavy"]],
                        "sorted": True, "admissible": True, "wantV": ["heavy"], "wantE": ["max"]})
     jobs = []
     for kw in ({}, {"clear_cache_every_nbr_calc": 3}, {"clear_cache_every_nbr_calc": 1, "memory_threshold_inGB": 1e-9},
@@ -37,7 +37,7 @@ def all_estimators_job():
     return ({"hist": [{"op": "call", "vars": ["gammadet"], "ests": allests}], "init_order": [2, 3, 1], "tkeys": ["it"],
              "cols": [{"kind": "in", "name": c, "of": "", "e": ""} for c in O.IN_SCALARS + O.IN_OTHERS]
              + [{"kind": "var", "name": "gammadet", "of": "", "e": ""}]
-             + [{"kind": "est", "name": c + "_" + e, "of": c, "e": e} for c in ["alpha", "gammadet"] for e in allests],
+             + [{"kind": "est", "name": c + "_" + e, "of": c, "e": e} for c in O.IN_SCALARS + ["gammadet"] for e in allests],
              "sorted": True, "admissible": True, "wantV": ["gammadet"], "wantE": allests}, {})
 
 
@@ -51,6 +51,12 @@ def run(tier, seed, pid="C14"):
     r2 = O.run_spec(4, simulate=(8 if tier == "quick" else 120), seed=seed + 1)
     run.add_tlc(r2, "OverTime: simulated behaviours of 4 steps")
     beh += behaviours(r2.printed)
+    # three successive calls on a reduced alphabet (two scalar variables, one custom estimator, one temporal key): every split
+    r3 = O.run_spec(3, steps=[1, 2], tensor_vars=[], estimates=["p5"], tkeys='{{"it"}}')
+    if r3.violated:
+        raise RuntimeError("OverTime spec violates " + r3.violated)
+    run.add_tlc(r3, "OverTime: <=3 steps on a reduced alphabet (2 scalar variables, custom estimator only): every split into three calls")
+    beh3 = [b for b in behaviours(r3.printed) if len([h for h in b["hist"] if h["op"] == "call"]) == 3]
     rng = random.Random(seed)
     if tier == "quick":
         one = [b for b in beh if len(b["hist"]) == 1]
@@ -58,6 +64,9 @@ def run(tier, seed, pid="C14"):
         rng.shuffle(one)
         rng.shuffle(more)
         beh = one[:300] + more[:1200]
+        rng.shuffle(beh3)
+        beh3 = beh3[:400]
+    beh += beh3
     jobs = [(b, {}) for b in beh]
     jobs += driver_jobs()
     jobs.append(all_estimators_job())
